@@ -82,6 +82,9 @@ bool class_in_scope(const std::string &prop, const std::string &cls, int mode, b
   if (prop == "C07") {
     if (!external) return false;
     if (cls == "prefix_modified") return true;
+    // an attempt to remap or unmap memory around a caller buffer (the simulated kernel rejects it: the buffer is no mapping
+    // of the library's) is an attempt to use memory outside [buffer, buffer+n)
+    if (cls == "sim_reject") return true;
     // the 20-byte rule is judged at the model's positions, which are the library's own only when no padding is involved
     return cls == "ret" && expect_fail == FR_RESERVE && mode != M_FIT;
   }
@@ -109,7 +112,9 @@ bool class_in_scope(const std::string &prop, const std::string &cls, int mode, b
     if (cls == "sim_reject") return fault_context;
     return (model_cls || cls == "binfile_ret" || cls == "exec") && fault_context;  // recovery after the last fault
   }
-  if (prop == "C18") return model_cls || cls == "exec" || cls == "options" || cls == "alone" || cls == "sim_reject" || cls == "unreadable_ret";
+  if (prop == "C18")
+    return model_cls || cls == "exec" || cls == "options" || cls == "alone" || cls == "sim_reject" || cls == "unreadable_ret" || cls == "file_content" ||
+           cls == "binfile_ret";
   if (prop == "C19") {
     if (cls == "twin" || cls == "file_content" || cls == "sim_reject" || cls == "unreadable_ret") return true;
     return cls == "binfile_ret";
@@ -369,8 +374,10 @@ static void probe_instance(Run &R, TaskRt &T, Inst &I, int ti, int oi, const Op 
   want += I.m.mov == 1 ? "NN" : I.m.mov == 0 ? "KK" : "NK";
   want.push_back(I.m.swap ? 'N' : 'S');
   want.push_back(I.m.nobase ? 'N' : 'S');
-  I.m.offset = 0;
+  I.m.offset = ret == 0 ? off : 0;  // the probe text was assembled from offset 0: that is where the instance stands now
   I.m.offset_unspec = ret != 0;
+  I.m.offset_explicit = false;
+  if (ret == 0) I.m.hi = std::max<long>(I.m.hi, off);
   I.m.segs.clear();
   refresh_mirror(I, pcv, 0);
   if (!parse_ok || got != want) {
@@ -1033,7 +1040,7 @@ static void exec_create(Run &R, TaskRt &T, int ti, int oi, const Op &op) {
   }
   lib::inst_t al = nullptr;
   T.ctx.reset_op(&op.env, op.uid);
-  int j = in_lib(R, T.ctx, [&] { al = lib::create(buf, ext ? (int)op.n : 0); });
+  int j = in_lib(R, T.ctx, [&] { al = lib::create(buf, ext ? (int)op.n : (int)op.c); });
   R.st.steps += sim_steps_now();
   bool fired = T.ctx.fired_total > 0;
   if (fired) {
@@ -1139,7 +1146,9 @@ static void exec_simple(Run &R, TaskRt &T, int ti, int oi, const Op &op) {
     if (!X->al) continue;
     int j = in_lib(R, T.actx, [&] {
       switch (op.kind) {
-        case OP_SETTER: lib::setter(X->al, op.which, op.value); break;
+        case OP_SETTER:
+          for (long rep = std::max<long>(1, op.k); rep > 0; rep--) lib::setter(X->al, op.which, op.value);
+          break;
         case OP_CHUNK: lib::set_chunk(X->al, (size_t)(op.c + (world().sabotage == 3 ? 1 : 0))); break;
         case OP_OFFSET: lib::set_offset(X->al, (int)op.k); break;
         case OP_DEBUG: lib::set_debug(X->al, op.on); break;
